@@ -26,6 +26,7 @@ class checkpoint(Flow):
         self.checkpoint_name = checkpoint_name
         self.checkpoint_path = os.path.join(checkpoint_path, checkpoint_name)
         self.resources = resources
+        self.has_upstream = False
 
     @property
     def filename(self):
@@ -34,13 +35,18 @@ class checkpoint(Flow):
     def exists(self):
         return os.path.exists(self.filename)
 
+    def _chain(self, ds=None):
+        # chained onto an upstream datastream (inside a conditional / a flow run with datastream(ds))?
+        self.has_upstream = ds is not None
+        return super()._chain(ds)
+
     def _preprocess_chain(self):
         if os.path.exists(self.filename):
             print('using checkpoint data from {}'.format(self.checkpoint_path))
             return unstream(self.filename),
         else:
             chain = tuple(self.chain)
-            if len(chain) == 0:
+            if len(chain) == 0 and not self.has_upstream:
                 # nothing to compute the checkpoint from (e.g. a flow that only reads it, run
                 # before - or after an interrupted run of - the flow that writes it)
                 raise FileNotFoundError(
